@@ -67,6 +67,10 @@ func init() {
 		quick: tierCfg{worlds: 10, batchSize: 16, checks: 150, timeoutS: 240},
 		thor:  tierCfg{worlds: 96, batchSize: 24, checks: 600, timeoutS: 1200},
 		genCfg: func(seed uint64, name string) gen.Config {
+			if seed%2 == 1 {
+				// every other world adds the JSON-mapping annotations (custom codecs in the path)
+				return gen.Config{Seed: seed, Name: name, Allow: safeAllow(gen.AnnotationFeatures...), AnnService: true}
+			}
 			return gen.Config{Seed: seed, Name: name, Allow: safeAllow()}
 		},
 		probes: func() []*spec.World {
@@ -91,6 +95,10 @@ func init() {
 		quick: tierCfg{worlds: 8, batchSize: 16, checks: 120, timeoutS: 240, env: []string{"VERIF_SWEEP=1", "VERIF_SWEEP_MAX=2"}},
 		thor:  tierCfg{worlds: 64, batchSize: 32, checks: 500, timeoutS: 1800, env: []string{"VERIF_SWEEP=1", "VERIF_SWEEP_MAX=40"}},
 		genCfg: func(seed uint64, name string) gen.Config {
+			if seed%2 == 1 {
+				// custom decoders for annotated messages in the path of hostile bodies
+				return gen.Config{Seed: seed, Name: name, Allow: safeAllow(gen.AnnotationFeatures...), AnnService: true}
+			}
 			return gen.Config{Seed: seed, Name: name, Allow: safeAllow()}
 		},
 		rule: "server runs: a valid Go-client or contract-client request with one fault (truncate / reset / stall at a drawn body or header offset, duplicate delivery, drop, write error) placed inside the in-flight message, plus mutated bodies (truncated JSON, token swaps, duplicate keys, deep nesting, huge numbers, invalid UTF-8, invalid wire data) under 9 content types; client runs: rogue upstream responses and response-direction faults with virtual-clock deadlines; sweeps enumerate every truncation and reset offset of the base plan's body; distinct_nontrivial counts distinct (world, rpc, mode, codec family, fault or body kind, dispatched?, status) tuples on which an oracle was evaluated",
